@@ -139,8 +139,8 @@ def execute(scn):
             s, res = runs[kind]
             an = sc.Analysis(s, res)
             for cls, detail, msg in an.v:
-                if cls in ('state-mismatch', 'wrong-response', 'wrong-unit', 'exec-unsolicited', 'response-extra', 'output-garbled') \
-                        and detail.get('tag') in (None, 'valid'):
+                if cls in ('state-mismatch', 'wrong-response', 'wrong-unit', 'exec-unsolicited', 'response-extra', 'output-garbled',
+                           'response-missing', 'response-stray') and detail.get('tag') in (None, 'valid'):
                     add('interleaving-' + cls, '%s: %s' % (kind, msg), frontend=kind, fc=detail.get('fc'))
     else:
         base = copy.deepcopy(scn)
